@@ -6,4 +6,4 @@ require github.com/Oudwins/zog v0.0.0
 
 require golang.org/x/exp v0.0.0-20240613232115-7f521ea00fb8 // indirect
 
-replace github.com/Oudwins/zog => /tmp/seedsnap
+replace github.com/Oudwins/zog => /repo
